@@ -2,6 +2,7 @@ import MpsVerif.Proofs.LifecycleStart
 import MpsVerif.Proofs.LifecycleWf
 import MpsVerif.Proofs.LifecycleCands
 import MpsVerif.Proofs.LifecyclePipes
+import MpsVerif.Proofs.LifecycleCompile
 /-!
 # C11 — Server starts all-or-nothing and stops completely
 
@@ -34,23 +35,24 @@ theorem C11_all_or_nothing (bad : Nat → Nat → Bool) (t : Tree) :
 /-
 Full statement of "stop completes" (NOT provable: false for pipe-backed queues, see `C11_F19_witness`):
 
-  theorem C11_stop_complete (K : Nat) (hK : 1 ≤ K) (t : Tree) (s : State)
+  theorem C11_stop_complete (K : Nat) (hK : 1 ≤ K) (t : Tree) (hpos : t.pos) (s : State)
       (hr : Reachable (compileServer K t) s) (hnf : ¬ Final s) :
       ∃ a, (step (compileServer K t) s a).isSome = true
 
-together with `C11_stop_terminates` and `C11_stop_final` below (which do hold at full strength, for every
-well-formed network, every K and every residual workload).  What is proved instead of the progress half:
-`C11_stop_complete_partial` — progress for every well-formed network that satisfies the decidable side
-condition `Net.safe`: every pipe-backed queue has ONE node writing to it, and the main thread puts its own
-sentinel on it only after having joined that writer.  This covers every tree of thread servlets (no pipe at
-all: `C11_stop_complete_threads`, the class the deterministic-scheduler tie runs) and, with pipes of any
-capacity K ≥ 1 and ANY residual workload, sequences / ensembles of one-worker process servlets under the
-repaired stop orders (F12, F24).  It excludes exactly the known hangs: a servlet with ≥ 2 workers writing to a
-pipe (F19), switch members sharing a pipe-backed output queue, and the pinned stop orders (`Net.safe` is
-`false` there, see the examples).  Missing: (a) the full statement is false; (b) `(compileServer K t).wf = true`
-for ALL trees `t`, and a syntactic characterisation of the trees with `(compileServer K t).safe = true`, as
-theorems — both are hypotheses here, evaluated by the driver for every tree the check runs (`wf`) and by
-`decide` for the shapes below.
+together with `C11_stop_terminates`, `C11_stop_final`, `C11_reenter` below, which DO hold at full strength: for
+every servlet tree (every servlet with ≥ 1 worker), every K and every residual workload — the compiled network is
+well-formed for every such tree (`compile_WF`), so the `_tree` versions carry no well-formedness hypothesis.
+What is proved instead of the progress half: `C11_stop_complete_partial(_tree)` — progress under the decidable
+side condition `Net.safe`: every pipe-backed queue has ONE node writing to it, and the main thread puts its own
+sentinel on it only after having joined that writer.  This covers every tree of thread servlets (no pipe at all:
+`C11_stop_complete_threads_tree`, unconditional — the class the deterministic-scheduler tie runs) and, with
+pipes of any capacity K ≥ 1 and ANY residual workload, e.g. sequences / ensembles of one-worker process servlets
+under the repaired stop orders (F12, F24).  It excludes exactly the known hangs: a servlet with ≥ 2 workers writing
+to a pipe (F19), switch members sharing a pipe-backed output queue, and the pinned stop orders (`Net.safe` is
+`false` there, see the examples).  Missing: (a) the full statement is false; (b) a syntactic characterisation of
+the trees with `(compileServer K t).safe = true` as a theorem (`safe` is a hypothesis, evaluated by `decide` for
+the shapes below; it is sufficient, not necessary: an ensemble's `_enqueue` and `_dequeue` both write to its
+output queue, so `S(E(..), P1)` is rejected although the F24 order makes it harmless).
 -/
 
 /-- once `__exit__` has begun, at most `mu` further steps can happen, whatever the schedule, the tree, the pipe
@@ -80,12 +82,6 @@ theorem C11_stop_complete_threads (net : Net) (hwf : net.wf = true) (hub : Unbou
     (hr : Reachable net s) (hnf : ¬ Final s) : ∃ a, (step net s a).isSome = true :=
   progress_of_inv net (wf_sound net hwf) hub s (inv_reachable net (wf_sound net hwf) hr) hnf
 
-/-- the same for servlet trees -/
-theorem C11_stop_complete_partial_tree (K : Nat) (t : Tree) (hwf : (compileServer K t).wf = true)
-    (hsafe : (compileServer K t).safe = true) (s : State) (hr : Reachable (compileServer K t) s) (hnf : ¬ Final s) :
-    ∃ a, (step (compileServer K t) s a).isSome = true :=
-  C11_stop_complete_partial _ hwf hsafe s hr hnf
-
 /-- after `__exit__` the same server object can be entered again: all `assert not self._started` hold, the new
     state is the initial state (fresh queues and threads) and the ledger is empty -/
 theorem C11_reenter (net : Net) (hwf : net.wf = true) (s : State) (hr : Reachable net s) (hf : Final s) :
@@ -98,6 +94,52 @@ theorem C11_reenter (net : Net) (hwf : net.wf = true) (s : State) (hr : Reachabl
   refine ⟨hf, ?_⟩
   simp only [List.all_eq_true, List.mem_range, decide_eq_true_eq]
   exact hall
+
+/-! ### the same for servlet trees: no well-formedness hypothesis -/
+
+/-- every servlet tree: once `__exit__` has begun at most `mu` further steps can happen -/
+theorem C11_stop_terminates_tree (K : Nat) (t : Tree) (hpos : t.pos) (s : State) (hstop : s.stopping = true)
+    (as : List Act) (s' : State) (hrun : Core.run (step (compileServer K t)) s as = some s') :
+    as.length ≤ mu (compileServer K t) s := by
+  have := Core.length_le_measure_inv (step := step (compileServer K t)) (mu (compileServer K t))
+    (fun s => s.stopping = true)
+    (fun s a s' hi hs => stopping_step _ s a s' hi (step_sound _ s s' a hs))
+    (fun s a s' hi hs => mu_decreases _ (compile_WF K t hpos) s a s' hi (step_sound _ s s' a hs))
+    as s s' hstop hrun
+  omega
+
+/-- every servlet tree: when `__exit__` returns every thread of the server has exited and the ledger is empty -/
+theorem C11_stop_final_tree (K : Nat) (t : Tree) (hpos : t.pos) (s : State)
+    (hr : Reachable (compileServer K t) s) (hf : Final s) :
+    (∀ n, n < (compileServer K t).nodes.length → s.nodes n = .s []) ∧ s.ledger = 0 :=
+  final_all_exited _ (compile_WF K t hpos) s (inv_reachable _ (compile_WF K t hpos) hr) hf
+
+/-- every servlet tree: after `__exit__` the same server object can be entered again (fresh initial state, empty ledger) -/
+theorem C11_reenter_tree (K : Nat) (t : Tree) (hpos : t.pos) (s : State) (hr : Reachable (compileServer K t) s)
+    (hf : Final s) :
+    ∃ s0, reenter (compileServer K t) s = some s0 ∧ s0.ledger = 0 ∧ s0.pc = (compileServer K t).script ∧
+      s0.stopping = false ∧ (∀ n, s0.nodes n = .d []) ∧ (∀ c, s0.chans c = []) := by
+  obtain ⟨hall, hl⟩ := C11_stop_final_tree K t hpos s hr hf
+  refine ⟨{ init (compileServer K t) with ledger := s.ledger }, ?_, hl, rfl, rfl, fun _ => rfl, fun _ => rfl⟩
+  unfold reenter
+  rw [if_pos]
+  refine ⟨hf, ?_⟩
+  simp only [List.all_eq_true, List.mem_range, decide_eq_true_eq]
+  exact hall
+
+/-- every tree of thread servlets (any shape, any number of workers): `__exit__` never hangs, whatever the
+    residual workload and the schedule -/
+theorem C11_stop_complete_threads_tree (K : Nat) (t : Tree) (hpos : t.pos) (hth : t.threadOnly) (s : State)
+    (hr : Reachable (compileServer K t) s) (hnf : ¬ Final s) :
+    ∃ a, (step (compileServer K t) s a).isSome = true :=
+  progress_of_inv _ (compile_WF K t hpos) (compile_unbounded K t hth) s
+    (inv_reachable _ (compile_WF K t hpos) hr) hnf
+
+/-- every servlet tree whose compiled network is `safe` (pipes included, any K ≥ 1, any residual workload) -/
+theorem C11_stop_complete_partial_tree (K : Nat) (t : Tree) (hpos : t.pos)
+    (hsafe : (compileServer K t).safe = true) (s : State) (hr : Reachable (compileServer K t) s) (hnf : ¬ Final s) :
+    ∃ a, (step (compileServer K t) s a).isSome = true :=
+  progress_safe _ (compile_WF K t hpos) (safe_sound _ hsafe) s hr hnf
 
 /-- F19 in the model (it is a property of the stop protocol, repaired code included): a first-stage
     `ProcessServlet` with three workers, pipes holding one message.  Worker 0 takes the sentinel and forwards
